@@ -254,11 +254,8 @@ func (a Bytes) M__add__(other Object) (Object, error) {
 }
 
 func (a Bytes) M__iadd__(other Object) (Object, error) {
-	if b, ok := convertToBytes(other); ok {
-		a = append(a, b...)
-		return a, nil
-	}
-	return NotImplemented, nil
+	// bytes are immutable: the result must not share a's spare capacity
+	return a.M__add__(other)
 }
 
 func (a Bytes) Replace(args Tuple) (Object, error) {
